@@ -5,13 +5,15 @@ ENGINES = [
      "kind_free_text": "proptest TestRunner driven from a binary (seeded by VERIF_SEED, shrinking, replay files), bounded-exhaustive enumerations, dev+release profiles, worker processes, evidence writer"},
     {"name": "sandbox", "path": "harness/sandbox", "serves_properties": ["C01","C02","C09","C10","C13","C18","C19"],
      "kind_free_text": "mmap with PROT_NONE guard pages flush against the input + fork/pipe/waitpid case isolation with watchdog"},
+    {"name": "fuzz", "path": "fuzz", "serves_properties": ["C01","C06","C07","C09","C13","C16"],
+     "kind_free_text": "cargo-fuzz project (nightly, libFuzzer + AddressSanitizer with manual poisoning outside the region / outside the tag in use): fuzz_mbi, fuzz_tag, fuzz_hdr, fuzz_find, fuzz_build; the semantic oracle (extent check, reference model, independent encoder) is inside each target; fixed-run campaigns in the quick (short) and thorough tier, seeded by VERIF_SEED"},
 ]
 NOTES = "All checks are property-based tests / bounded-exhaustive enumerations against an explicit oracle (reference model, round-trip, differential). Exit 0 held, 1 violation (VIOLATION line), 2 inconclusive. See DESIGN.md."
 
 PENDING = "check not built yet in this revision of /verif (work in progress); will be claimed once its machinery exists"
 
-add("C01", "mb2-check+sandbox", "property-based testing over generated adversarial regions in a guard-page sandbox; extent oracle",
-    "Generated adversarial boot informations (all kinds, tampered sizes/counts/strides/indices) are loaded and fully exercised in a forked child with the region flush against PROT_NONE pages; any signal, step-bound overrun or returned reference outside its tag is a violation. Also: stand-alone tags ending at the guard page, tag lists of up to 60 000 (200 000) tags on a 1 MiB stack, polling after a caught panic, secondary iterator methods, Debug of advanced iterators; thorough tier adds libFuzzer/ASan campaigns (fuzz_mbi, fuzz_tag) with out-of-tag poisoning. Exploration: finds crashes and escaping references, cannot prove their absence.",
+add("C01", "mb2-check+sandbox+fuzz", "property-based testing over generated adversarial regions in a guard-page sandbox; extent oracle; coverage-guided fuzzing (libFuzzer + ASan) with the same oracle inside the target",
+    "Generated adversarial boot informations (all kinds, tampered sizes/counts/strides/indices) are loaded and fully exercised in a forked child with the region flush against PROT_NONE pages; any signal, step-bound overrun or returned reference outside its tag is a violation. Also: stand-alone tags ending at the guard page, tag lists of up to 60 000 (200 000) tags on a 1 MiB stack, polling after a caught panic, secondary iterator methods, Debug of advanced iterators; ELF section names resolved in harness-owned memory, relations (==, cmp, hash) with a second live object; libFuzzer/ASan campaigns (fuzz_mbi, fuzz_tag) with out-of-tag poisoning, short in the quick tier and long in the thorough tier. Exploration: finds crashes and escaping references, cannot prove their absence.",
     "guard pages are byte-exact only on the flush side; reads removed by the optimiser are invisible; no known finding is open (the exclusion machinery for D16 is inert)", "DESIGN.md §4 C01")
 add("C02", "mb2-check+sandbox", "bounded-exhaustive + property-based testing of load() against the statement's decision table",
     "Every total-size word 0..=72 and every multiple of 8 with its neighbours up to 1024/4096, 8 end-tag variants, plus generated sizes up to 1 MiB on a mapping that provides exactly the declared bytes, sizes up to 2^32-1 on a lazily mapped 4 GiB region, interiors with end-tag look-alikes, and regions whose interior is a (well-formed or broken) tag chain; oracle is the precedence table of the statement.",
@@ -20,7 +22,7 @@ add("C03", "mb2-check", "bounded-exhaustive + property-based differential agains
     "All walks over regions of up to 5 (6) payload words by DFS over size words, generated regions with tampered sizes, and next/clone/fresh histories checked against an index-into-the-walk model.",
     "in-process (no sandbox): the walk is bounds-checked; crashes are C01's business", "DESIGN.md §4 C03")
 add("C14", "mb2-check", "bounded-exhaustive enumeration + property-based testing against the precedence oracle; exhaustive 2^32 loop for rounding",
-    "Complete enumeration of slice length x misalignment x declared size for five header kinds (the header's other words varied: markers, zero, defined ids, correct values), generated slices to 70000 bytes with declared sizes around 4096..65536, and the rounding function over all 2^32 arguments (thorough, release).",
+    "Complete enumeration of slice length x misalignment x declared size for five header kinds, each case repeated for the other four kinds on the same memory (the header's other words varied: markers, zero, defined ids, correct values), generated slices to 70000 bytes with declared sizes around 4096..65536, and the rounding function over all 2^32 arguments (thorough, release).",
     "enumerated header fields of the header-crate headers hold defined values", "DESIGN.md §4 C14")
 
 add("C04", "mb2-check", "property-based differential against the reference decoder over encoder-built conformant regions",
@@ -29,13 +31,13 @@ add("C04", "mb2-check", "property-based differential against the reference decod
 add("C05", "mb2-check+sandbox", "bounded-exhaustive size sweep + property-based differential against the total reference model",
     "Every declared size 0..=image+16 for each variable-length kind (both crates) with marker padding/neighbour, plus adversarial regions compared in full with the total model.",
     "network contents and EFI-map length are observed through Debug output because the crate has no accessor for them", "DESIGN.md §4 C05")
-add("C06", "mb2-check", "model-based testing of builder call histories; exhaustive subset enumeration; round-trip through load",
+add("C06", "mb2-check+fuzz", "model-based testing of builder call histories; exhaustive subset enumeration; round-trip through load; coverage-guided fuzzing (libFuzzer + ASan) of constructions against the independent encoder",
     "Generated call histories and all singletons/pairs/triples, plus all 2^14 (quick) / 2^22 (thorough) subsets, are built, loaded and compared as a multiset with the model of the builder.",
     "tag images are captured from the supplied tags themselves (the statement compares against the supplied tag), constructors' documented preconditions are respected", "DESIGN.md §4 C06")
-add("C07", "mb2-check", "property-based testing of constructors against an independent encoder (round-trip + differential)",
+add("C07", "mb2-check+fuzz", "property-based testing of constructors against an independent encoder (round-trip + differential); coverage-guided fuzzing (libFuzzer + ASan) of constructions against the independent encoder",
     "All 38 public constructors with byte-marked/boundary/random arguments and every content length 0..=40 compared with the independent little-endian encoder, the ID constants, accessor read-back and placement probes for as_bytes(); the 22 fixed-size constructors additionally inside four separately compiled configurations ({dev, release} x {default, no default features}).",
     "padding bytes inside argument structures (EFIMemoryDesc) are masked; constructor preconditions respected", "DESIGN.md §4 C07")
-add("C09", "mb2-check+sandbox", "property-based testing over generated adversarial headers in a guard-page sandbox; extent oracle",
+add("C09", "mb2-check+sandbox+fuzz", "property-based testing over generated adversarial headers in a guard-page sandbox; extent oracle; coverage-guided fuzzing (libFuzzer + ASan) with the same oracle inside the target",
     "As C01 for multiboot2-header: adversarial headers with defined enumerated fields are loaded and fully exercised in a forked child flush against PROT_NONE pages.",
     "enumerated fields are rewritten to defined values by the generator (the statement's precondition); guard pages are byte-exact on the flush side only", "DESIGN.md §4 C09")
 add("C10", "mb2-check+sandbox", "bounded-exhaustive + property-based testing of load() against the decision table; exhaustive 2^32 loop for the checksum law",
@@ -47,23 +49,23 @@ add("C11", "mb2-check", "property-based differential against the reference decod
 add("C12", "mb2-check", "exhaustive subset enumeration + model-based call histories; round-trip through load",
     "All 2^10 subsets x 2 architectures and all single-tag headers with 0/8 field patterns (tails that look like an end tag) in every tier, plus generated histories with marker / special-value fields and request lists up to 8100 entries (headers to 32 KiB): alignment, load, magic, arch, length, checksum, tag multiset, terminating end tag.",
     "tag images captured from the supplied tags", "DESIGN.md §4 C12")
-add("C13", "mb2-check+sandbox", "bounded-exhaustive + property-based testing of find_header against a reference search",
-    "Every buffer length around 0 and around the 8192 window with magics planted at every boundary position and stored lengths at/over the end, plus generated buffers to 16 KiB, optionally starting with an ELF/PE/a.out file identification, compared with the reference search by address and length.",
+add("C13", "mb2-check+sandbox+fuzz", "bounded-exhaustive + property-based testing of find_header against a reference search; coverage-guided fuzzing (libFuzzer + ASan) with the same oracle inside the target",
+    "Sequences of searches in one process, look-alike decoys (big-endian header, other magics), and every buffer length around 0 and around the 8192 window with magics planted at every boundary position and stored lengths at/over the end, plus generated buffers to 16 KiB, optionally starting with an ELF/PE/a.out file identification, compared with the reference search by address and length.",
     "any Err variant is accepted where the statement says 'an error'", "DESIGN.md §4 C13")
 add("C15", "mb2-check+sandbox", "bounded-exhaustive enumeration over a family of user-defined tag types and all built-in kinds",
     "34 harness-defined sized/DST tag types x every tag size 8..=96 through get_tag, cast on the iterated tag, and ref_from_slice over the tag plus slack bytes followed by cast, and all 22 built-in kinds x sizes, checking address, size_of_val and aliasing or a panic; exact fits must be accepted.",
     "the family's BASE_SIZE/dst_len are truthful by construction", "DESIGN.md §4 C15")
-add("C16", "mb2-check", "bounded-exhaustive + property-based testing under a recording global allocator",
+add("C16", "mb2-check+fuzz", "bounded-exhaustive + property-based testing under a recording global allocator; coverage-guided fuzzing (libFuzzer + ASan) of constructions against the independent encoder",
     "Every composition of content length 0..=12 into 0..=4 slices x 13 targets (6 generic structures, 7 tag kinds with a sized part) and generated larger ones up to ~64 KiB: one allocation of the exact layout, exact byte layout, one matching deallocation, clone identity; clone_dyn of all 11 DST kinds at content lengths 0..=40.",
     "single-threaded harness; the allocator log is armed around a single call", "DESIGN.md §4 C16")
 add("C17", "mb2-check", "bounded-exhaustive enumeration over small alphabets + property-based round-trip",
     "All strings over a 4-character alphabet up to length 5 (6) through the three constructors, and all byte strings over a 6-byte alphabet up to length 5 (6) x every declared-size cut through the parsers (as a single tag, and inside a loaded boot information through the typed getter), plus generated long multi-byte texts, against the NUL/UTF-8 rule of the statement.",
     "in-process: string parsing is slice-bounded safe code", "DESIGN.md §4 C17")
 add("C18", "mb2-check+sandbox", "bounded-exhaustive + property-based testing against the reference descriptor walk in a guard-page sandbox",
-    "Descriptor size 0..=128 x version x count x length slack, and generated maps: valid combinations decode exactly with exact remaining-length reports; all others must panic before completing and never produce a misplaced descriptor.",
+    "Descriptor size 0..=128 x version x count x length slack, generated maps (marker and firmware-style descriptors), and maps beyond 2^16 descriptors: valid combinations decode exactly with exact remaining-length reports; all others must panic before completing and never produce a misplaced descriptor.",
     "where the statement leaves the rejection point open (memory_areas() vs next()) both are accepted", "DESIGN.md §4 C18")
 add("C19", "mb2-check+sandbox", "bounded-exhaustive + property-based testing against the reference ELF32/ELF64 decoder in a guard-page sandbox",
-    "Entry count x entry size x table length x string-table index (incl. reserved ELF indices) x raw type classes, and generated tables: fitting tags yield exactly the in-use entries with decoded fields and names; others must be rejected by a panic without reading outside.",
+    "Entry count x entry size x table length x string-table index (incl. reserved ELF indices) x raw type classes, generated tables, sequences of tags at one address, and tables beyond 2^16 entries: fitting tags yield exactly the in-use entries with decoded fields and names; others must be rejected by a panic without reading outside.",
     "section names live in harness-owned memory the tag points at (documented external address)", "DESIGN.md §4 C19")
 add("C20", "mb2-check", "exhaustive 2^32 enumeration (thorough) / stratified sampling (quick) of conversion laws",
     "All conversion, naming and equality laws for every 32-bit value, ELF type classification through the public iterator (in forked children: a fault is a verdict) for all 2^32 raw values, all 256 framebuffer type bytes, both magics.",
